@@ -110,6 +110,7 @@ type built struct {
 
 func build(c Case) *built {
 	w := world.New()
+	w.LongLived() // the passes of one case run in one operator process
 	nsOwner := ownerNamespaced(c.Owner)
 	ownerNS := ""
 	if nsOwner {
